@@ -821,3 +821,532 @@ def rabbit_start_fails_loudly(ctx: Ctx, rule: str) -> None:
     ctx.check(bool(raises) and g.exit.id not in r, rule, f, "unconfirmed basic_consume -> start() raises", "a failed (re)start is an exception, not a normal return",
               "rabbitmq start() returns normally although basic_consume was not confirmed: the consumer receives nothing, consume() waits for ever and nothing marks the worker UNHEALTHY "
               "(the health endpoint keeps answering 200)", instance="rabbitmq start fails loudly")
+
+
+def no_spawn_inside_wrapped(ctx: Ctx, rule: str) -> None:
+    """A wrapped operation runs with IsInsideMiddleware=True in its context, and a task created there inherits that context for its whole life. consume() (the consumers' wrapped
+    operation) therefore never creates - directly or through start() - a task whose body performs broker operations: their before_/after_ signals would be suppressed for good."""
+    n = 0
+    for q in (C.INMEM_CONS, C.REDIS_CONS, C.RABBIT_CONS):
+        f = ctx.func(f"{q}.consume")
+        g = ctx.icfg(f)
+        for node in g.calls():
+            if not (node.callee or "").endswith(("create_task", "ensure_future")) or not node.ast.args:
+                continue
+            n += 1
+            inner = node.ast.args[0]
+            if not isinstance(inner, ast.Call):
+                continue
+            for cal in ctx.res.callees(node.func, inner, record=False):
+                gi = ctx.icfg(cal)
+                ops = [m for m in gi.calls() if C.broker_op(ctx, m)]
+                ctx.check(not ops, rule, f, f"{f.short()} spawns {cal.short()}: no broker operation inside", "tasks created inside a wrapped operation emit nothing themselves",
+                          f"{f.short()} (a wrapped operation) creates a task running {cal.short()}, which calls {sorted({C.broker_op(ctx, m) for m in ops})}: the task inherits IsInsideMiddleware=True, "
+                          "so these operations are performed for the rest of the consumer's life without their before_/after_ signals", node=node, instance=f"{f.short()}: spawn of {cal.name}")
+    ctx.note(f"{rule}: {n} task creations reachable from the consumers' wrapped consume() inspected") if hasattr(ctx, "note") else None
+
+
+def rabbit_consume_releases_get(ctx: Ctx, rule: str) -> None:
+    """RabbitMQ consume() waits on a helper task `queue.get()`. When the wait is cancelled (timeout, stop) that task is cancelled before the cancellation leaves consume():
+    a leaked getter swallows the next delivery - the oldest message is skipped, everything behind it overtakes."""
+    f = ctx.func(f"{C.RABBIT_CONS}.consume")
+    g = ctx.cfg(f)
+    names = {t.id for st in ast.walk(f.node) if isinstance(st, ast.Assign) and isinstance(st.value, ast.Call) and (dotted(st.value.func) or "").endswith("create_task")
+             and any(isinstance(c, ast.Call) and (dotted(c.func) or "").endswith("queue.get") for c in ast.walk(st.value)) for t in st.targets if isinstance(t, ast.Name)}
+    ctx.require(bool(names), f"{f.qualname}: the getter task not found")
+    waits = [n for n in g.nodes if n.kind == "await" and n.ast is not None and any(isinstance(c, ast.Call) and (dotted(c.func) or "") in ("asyncio.wait", "wait") for c in ast.walk(n.ast))]
+    ctx.require(bool(waits), f"{f.qualname}: the wait on the getter task not found")
+    cancels = [n.id for n in g.calls() if isinstance(n.ast.func, ast.Attribute) and n.ast.func.attr == "cancel" and dotted(n.ast.func.value) in names]
+    ok = True
+    swallowed = False
+    for w in waits:
+        for d, k in g.succ[w.id]:
+            if k != "cancel":
+                continue
+            if d == g.cexit.id or not flow.must_pass(g, d, [g.cexit.id], cancels, flow.NORMAL_KINDS + ("raise", "cancel")):
+                ok = False
+            # ... and the cancellation goes on (re-raised): consume() does not carry on as if nothing had happened
+            after = flow.reach(g, [d], flow.NORMAL_KINDS + ("raise",), include_start=True)
+            if g.exit.id in after or any(x.kind == "await" and x.id in after for x in g.nodes):
+                swallowed = True
+    ctx.check(ok, rule, f, "cancelled wait cancels the getter task", "get_task.cancel() on every path from the cancelled wait to the exit",
+              "rabbitmq consume(): a cancellation of the wait leaves consume() without cancelling the helper task that sits in queue.get(): the leaked getter takes the next delivery and drops it - "
+              "that message is skipped and all later ones overtake it", node=waits[0], instance="rabbitmq: getter task released on cancel")
+    ctx.check(not swallowed, rule, f, "a cancelled wait ends consume()", "the CancelledError is re-raised", "rabbitmq consume() swallows the cancellation of its wait and goes on waiting: a stop / timeout of the consumer "
+              "does not end consume(), the worker cannot finish", node=waits[0], instance="rabbitmq: cancellation re-raised")
+
+
+def redis_claimed_read_propagates(ctx: Ctx, rule: str) -> None:
+    """Once a name is claimed (moved to `processing`) the consumer either hands the message out or lets the error out: an error swallowed while reading the claimed message's data
+    leaves it parked in `processing` while the retry loop claims and delivers the messages behind it."""
+    f = ctx.func(f"{C.REDIS_CONS}.__get_message_details")
+    g = ctx.cfg(f)
+    reads = [n for n in g.nodes if n.kind == "await" and n.ast is not None and any(isinstance(c, ast.Call) and (dotted(c.func) or "").endswith((".hget", ".hmget", ".hgetall")) for c in ast.walk(n.ast))]
+    ctx.require(bool(reads), f"{f.qualname}: reads of the message hash not found")
+    bad = []
+    for r in reads:
+        for d, k in g.succ[r.id]:
+            if k == "exc" and d != g.xexit.id and g.exit.id in flow.reach(g, [d], flow.NORMAL_KINDS, include_start=True):
+                bad.append(r)
+    ctx.check(not bad, rule, f, "errors while reading a claimed message propagate", "no handler turns a failed read into a normal return",
+              f"redis {f.short()} swallows an error of {unparse(bad[0].ast)[:50] if bad else ''} and returns normally: the message was already claimed (it sits in `processing`), the poll loop "
+              "goes on and delivers the messages behind it first", node=bad[0] if bad else None, instance="redis: claimed read propagates")
+
+
+def redis_fetch_reads_server(ctx: Ctx, rule: str) -> None:
+    """Every name the Redis fetch hands out was read from the server by this very call. Names are not reserved by reading them (the LREM result of the take is not checked): a name
+    remembered from an earlier page may have been taken - or acknowledged - by another consumer since, and is then held twice or comes back from the dead."""
+    f = ctx.func(f"{C.REDIS_CONS}.__fetch_message_name")
+    g = ctx.cfg(f)
+    fetches = [n.id for n in g.nodes if n.kind == "await" and n.ast is not None and any(
+        isinstance(c, ast.Call) and ((isinstance(c.func, ast.Name) and c.func.id in f.nested) or (dotted(c.func) or "").endswith((".lrange", ".zrange", ".zrangebyscore"))) for c in ast.walk(n.ast))]
+    ctx.require(bool(fetches), f"{f.qualname}: the awaited page fetch not found")
+    rets = [n for n in g.nodes if n.kind == "return" and isinstance(n.ast, ast.Return) and n.ast.value is not None and not C.is_const(n.ast.value, None)]
+    bad = [r for r in rets if not flow.must_pass(g, g.entry.id, [r.id], fetches, flow.NORMAL_KINDS)]
+    state = [x for x in C.own_nodes(f) if isinstance(x, ast.Attribute) and isinstance(x.ctx, ast.Store) and dotted(x.value) == "self"]
+    state += [x for x in C.own_nodes(f) if isinstance(x, ast.Call) and isinstance(x.func, ast.Attribute) and x.func.attr in ("append", "extend", "setdefault", "update", "insert")
+              and (dotted(x.func.value) or "").startswith("self.")]
+    ctx.check(bool(rets) and not bad and not state, rule, f, "redis fetch: every name handed out was read in this call, nothing is remembered", "page fetch on every path to a returned name; no state kept on the consumer",
+              f"redis __fetch_message_name {'returns ' + unparse(bad[0].ast.value)[:40] + ' without reading the queue' if bad else 'keeps ' + (unparse(state[0])[:50] if state else '?') + ' between calls'}: "
+              "a remembered name is not reserved - another consumer may have taken (or acknowledged) it since, so the message is held by two consumers or re-appears after its ack",
+              node=(bad or state or [None])[0], instance="redis fetch reads the server")
+
+
+def rabbit_delivery_table(ctx: Ctx, rule: str) -> None:
+    """Decision table of the RabbitMQ delivery callback (on_new_message), decided on its CFG with the guards' atoms fixed per row:
+       no delivery tag -> nothing; paused or not consuming -> basic_reject only; no topic -> basic_reject only; foreign topic -> basic_reject only;
+       overdue on a NORMAL consumer -> basic_nack only; otherwise -> remember the delivery tag, then hand the message to the local queue."""
+    f = ctx.func(f"{C.RABBIT_CONS}.on_new_message")
+    g = ctx.icfg(f)
+    ev = {"reject": [n.id for n in g.calls() if (n.callee or "").endswith("basic_reject")],
+          "nack": [n.id for n in g.calls() if (n.callee or "").endswith("basic_nack")],
+          "tag": [n.id for n in g.nodes if n.kind == "store" and "_id_to_delivery_tag[" in (n.target or "")],
+          "put": [n.id for n in g.calls() if (n.callee or "") == "self.queue.put"]}
+    ctx.require(all(ev.values()), f"{f.qualname}: events of the delivery callback not found ({ {k: len(v) for k, v in ev.items()} })")
+
+    def env(no_tag, paused, consuming, no_topic, foreign, overdue, normal):
+        def fn(text, node):
+            d = dotted(node)
+            if d == "self.__is_paused":
+                return paused
+            if d == "self.__is_consuming":
+                return consuming
+            if d == "self.topics":
+                return True if foreign is not None else None
+            if d == "params.is_overdue":
+                return overdue
+            if isinstance(node, ast.Compare) and len(node.ops) == 1:
+                l, op, r = unparse(node.left), node.ops[0], node.comparators[0]
+                if l == "message.delivery_tag" and C.is_const(r, None) and isinstance(op, (ast.Is, ast.IsNot)):
+                    return no_tag if isinstance(op, ast.Is) else not no_tag
+                if l == "msg_topic" and C.is_const(r, None) and isinstance(op, (ast.Is, ast.IsNot)):
+                    return no_topic if isinstance(op, ast.Is) else not no_topic
+                if l == "msg_topic" and isinstance(op, (ast.NotIn, ast.In)) and unparse(r) == "self.topics" and foreign is not None:
+                    return foreign if isinstance(op, ast.NotIn) else not foreign
+                if "category" in l and isinstance(op, (ast.Eq, ast.NotEq)) and unparse(r).endswith("NORMAL"):
+                    return normal if isinstance(op, ast.Eq) else not normal
+            return None
+        return {"*d": fn}
+
+    rows = [
+        ("no delivery tag", env(True, False, True, False, False, False, True), set()),
+        ("paused", env(False, True, True, False, False, False, True), {"reject"}),
+        ("not consuming", env(False, False, False, False, False, False, True), {"reject"}),
+        ("no topic", env(False, False, True, True, False, False, True), {"reject"}),
+        ("foreign topic", env(False, False, True, False, True, False, True), {"reject"}),
+        ("overdue, NORMAL consumer", env(False, False, True, False, False, True, True), {"nack"}),
+        ("overdue, other category", env(False, False, True, False, False, True, False), {"tag", "put"}),
+        ("deliverable", env(False, False, True, False, False, False, True), {"tag", "put"}),
+    ]
+    for name, e, want in rows:
+        r = flow.reach_under(g, e, flow.NORMAL_KINDS)
+        got = {k for k, ids in ev.items() if set(ids) & r}
+        always = all(g.exit.id not in flow.reach_under(g, e, flow.NORMAL_KINDS, blocked=frozenset(ev[k])) for k in want)
+        ctx.check(got == want and always, rule, f, f"rabbitmq delivery [{name}] -> {sorted(want) or 'nothing'}", "exactly these effects, on every path",
+                  f"rabbitmq on_new_message, case '{name}': effects {sorted(got) or 'none'}{'' if always else ' (not on every path)'} instead of {sorted(want) or 'none'} - a delivery that must be bounced is "
+                  "accepted (or the reverse), so a paused / finished / foreign consumer takes messages, or a deliverable one is never handed out", instance=f"rabbitmq delivery[{name}]")
+    # the tag is remembered before the message can be consumed (ack / nack / reject look it up)
+    ok = all(flow.must_pass(g, g.entry.id, [p], ev["tag"], flow.NORMAL_KINDS) for p in ev["put"])
+    ctx.check(ok, rule, f, "delivery tag stored before the hand-out", "_id_to_delivery_tag[msg_id] = tag dominates queue.put", "rabbitmq on_new_message hands a message out before its delivery tag is stored: "
+              "a terminal operation on it finds no tag and silently does nothing (the message stays un-acked)", instance="rabbitmq delivery: tag before put")
+
+
+def rabbit_lifecycle(ctx: Ctx, rule: str) -> None:
+    """start / pause / unpause / finish of the RabbitMQ consumer: which queue is subscribed for which category, prefetch windows, the consumer tag, the drain."""
+    st = ctx.func(f"{C.RABBIT_CONS}.start")
+    cons = [c for c in ast.walk(st.node) if isinstance(c, ast.Call) and isinstance(c.func, ast.Attribute) and c.func.attr == "basic_consume"]
+    ctx.require(len(cons) == 1, f"{st.qualname}: basic_consume not found")
+    q = C.inline_locals(st, C.arg(cons[0], 0, "queue"), calls="all")
+    ok = isinstance(q, ast.Call) and (dotted(q.func) or "").endswith("qnc") and unparse(C.arg(q, 0, "queue_name")) == "self.queue_name"
+    flags = {}
+    if ok:
+        for nm in ("delayed", "dead"):
+            v = C.kw(q, nm)
+            v = C.inline_locals(st, v, calls="all") if v is not None else None
+            flags[nm] = v
+            want = nm.upper()
+            ok = ok and isinstance(v, ast.Compare) and len(v.ops) == 1 and isinstance(v.ops[0], ast.Eq) and {unparse(v.left), unparse(v.comparators[0])} == {"self.category", f"MessageCategory.{want}"}
+    ctx.check(ok, rule, st, "rabbitmq start subscribes the queue of the consumer's category", "qnc(queue_name, delayed=category == DELAYED, dead=category == DEAD)",
+              f"rabbitmq start() subscribes {unparse(q)[:110] if q is not None else '?'}: the consumer reads another category's queue (a NORMAL consumer fed from the delayed queue receives messages before they are due; "
+              "a DEAD reader drains live messages)", node=cons[0], instance="rabbitmq start: queue of the category")
+    cb = C.arg(cons[0], 1, "consumer_callback")
+    na = C.kw(cons[0], "no_ack")
+    ctx.check(unparse(cb) == "self.on_new_message" and (na is None or C.is_const(na, False)), rule, st, "rabbitmq start: callback on_new_message, manual acknowledgement", "no_ack=False",
+              f"rabbitmq start() consumes with callback {unparse(cb) if cb is not None else '?'}, no_ack={unparse(na) if na is not None else 'default'}: with automatic acknowledgement a message is gone the moment it is "
+              "delivered - a crash or nack loses it", node=cons[0], instance="rabbitmq start: manual ack")
+    g = ctx.cfg(st)
+    qos = [n for n in g.calls() if (n.callee or "").endswith("basic_qos")]
+    con = [n for n in g.calls() if (n.callee or "").endswith("basic_consume")]
+    okq = len(qos) == 1 and unparse(C.kw(qos[0].ast, "prefetch_count") or ast.Constant(None)) == "self.max_unacked_messages" and qos[0].id in await_map(g) \
+        and flow.must_pass(g, g.entry.id, [con[0].id], [qos[0].id], flow.NORMAL_KINDS)
+    ctx.check(okq, rule, st, "rabbitmq start: prefetch window = max_unacked_messages, set before consuming", "basic_qos(prefetch_count=self.max_unacked_messages) then basic_consume",
+              "rabbitmq start() does not limit the prefetch window to max_unacked_messages before it starts consuming: the server pushes the whole queue to one consumer", instance="rabbitmq start: qos")
+    tags = [n for n in g.nodes if n.kind == "store" and n.target == "self._consumer_tag"]
+    okt = len(tags) == 1 and unparse(tags[0].meta.get("value") or ast.Constant(None)).endswith(".consumer_tag") and flow.must_pass(g, g.entry.id, [g.exit.id], [tags[0].id], flow.NORMAL_KINDS)
+    ctx.check(okt, rule, st, "rabbitmq start remembers the consumer tag", "self._consumer_tag = confirmation.consumer_tag on every normal path",
+              "rabbitmq start() does not keep the consumer tag: finish() cannot cancel the subscription, the server keeps pushing deliveries to a finished consumer (they are bounced for ever)", instance="rabbitmq start: tag kept")
+    flag = [n for n in g.nodes if n.kind == "store" and n.target == "self.__is_consuming" and C.is_const(n.meta.get("value"), True)]
+    first_await = [n for n in g.nodes if n.kind == "await"]
+    okf = len(flag) == 1 and all(flow.must_pass(g, g.entry.id, [a.id], [flag[0].id], flow.NORMAL_KINDS) for a in first_await)
+    ctx.check(okf, rule, st, "rabbitmq start marks the consumer as consuming before it subscribes", "__is_consuming = True first", "rabbitmq start() does not set the consuming flag before basic_consume: the first "
+              "deliveries arrive while the flag is still False and are bounced; if it is never set every delivery is bounced", instance="rabbitmq start: flag")
+    clr = [n for n in g.calls() if (n.callee or "") == "self.server_side_cancel_event.clear"]
+    ctx.check(bool(clr), rule, st, "rabbitmq start clears the server-side-cancel event", "event.clear()", "rabbitmq start() leaves the server-side-cancel event set: consume() restarts the consumer in a tight loop", instance="rabbitmq start: event cleared")
+    for nm, want_flag, want_count in (("pause", True, "1"), ("unpause", False, "self.max_unacked_messages")):
+        fn = ctx.func(f"{C.RABBIT_CONS}.{nm}")
+        gg = ctx.cfg(fn)
+        qs = [n for n in gg.calls() if (n.callee or "").endswith("basic_qos")]
+        okp = len(qs) == 1 and qs[0].id in await_map(gg) and unparse(C.kw(qs[0].ast, "prefetch_count") or ast.Constant(None)) == want_count
+        ctx.check(okp, rule, fn, f"rabbitmq {nm}: prefetch window {want_count}", f"basic_qos(prefetch_count={want_count}) awaited",
+                  f"rabbitmq {nm}() does not set the prefetch window to {want_count}: " + ("a paused consumer keeps being fed" if want_flag else "an unpaused consumer stays throttled to one message (or unbounded)"),
+                  instance=f"rabbitmq {nm}: qos")
+    fin = ctx.func(f"{C.RABBIT_CONS}.finish")
+    gg = ctx.cfg(fin)
+    canc = [n for n in gg.calls() if (n.callee or "").endswith("basic_cancel")]
+    okc = len(canc) == 1 and canc[0].id in await_map(gg) and unparse(canc[0].ast.args[0] if canc[0].ast.args else ast.Constant(None)) == "self._consumer_tag"
+
+    def tag_env(is_none):
+        def fn_(text, node):
+            if isinstance(node, ast.Compare) and unparse(node.left) == "self._consumer_tag" and C.is_const(node.comparators[0], None):
+                return is_none if isinstance(node.ops[0], ast.Is) else (not is_none if isinstance(node.ops[0], ast.IsNot) else None)
+            return None
+        return {"*t": fn_}
+
+    r_some = flow.reach_under(gg, tag_env(False), flow.NORMAL_KINDS)
+    r_none = flow.reach_under(gg, tag_env(True), flow.NORMAL_KINDS)
+    okc = okc and canc[0].id in r_some and canc[0].id not in r_none
+    ctx.check(okc, rule, fin, "rabbitmq finish cancels its subscription when it has one", "basic_cancel(self._consumer_tag) iff the tag is set",
+              "rabbitmq finish() does not cancel the subscription of a started consumer (or cancels None): the server keeps delivering to a consumer nobody reads", instance="rabbitmq finish: cancel")
+    stop = [n for n in gg.nodes if n.kind == "store" and n.target == "self.__is_consuming" and C.is_const(n.meta.get("value"), False)]
+    ctx.check(bool(stop) and all(flow.must_pass(gg, gg.entry.id, [a.id], [s_.id for s_ in stop], flow.NORMAL_KINDS) for a in gg.nodes if a.kind == "await"), rule, fin,
+              "rabbitmq finish stops accepting before anything else", "__is_consuming = False first", "rabbitmq finish() does not clear the consuming flag first: deliveries that arrive while it "
+              "drains are accepted into a queue nobody reads any more", instance="rabbitmq finish: flag")
+    loops = [t for t in gg.nodes if t.kind == "test" and t.ast is not None and ("qsize" in unparse(t.ast) or "empty" in unparse(t.ast))]
+    okl = False
+    if len(loops) == 1:
+        t = loops[0].ast
+        txt = unparse(t)
+        okl = txt in ("self.queue.qsize() > 0", "self.queue.qsize() >= 1", "not self.queue.empty()", "self.queue.qsize() != 0", "self.queue.qsize()", "0 < self.queue.qsize()")
+    if not loops:  # `for _ in range(self.queue.qsize()):` - the body never suspends, so the size taken once is the number of buffered messages
+        okl = any(n.kind == "iter" and "qsize()" in (n.label or "") and "range(" in (n.label or "") for n in gg.nodes) and not any(a.kind == "await" and a.id in flow.reach(gg, [n.id for n in gg.nodes if n.kind == "iter"], flow.NORMAL_KINDS)
+                                                                                                                    and any(n.id in flow.reach(gg, [a.id], flow.NORMAL_KINDS) for n in gg.nodes if n.kind == "iter") for a in gg.nodes)
+    ctx.check(okl, rule, fin, "rabbitmq finish drains while messages are buffered", "while qsize() > 0", f"rabbitmq finish() drains under `{unparse(loops[0].ast) if loops else '?'}`: buffered deliveries are not "
+              "given back (they stay un-acked for as long as the channel lives)", instance="rabbitmq finish: drain condition")
+
+
+def _branch_env(pred):
+    def fn(text, node):
+        return pred(node)
+    return {"*b": fn}
+
+
+def rabbit_delivery_details(ctx: Ctx, rule: str) -> None:
+    """Smaller obligations of the RabbitMQ consumer that the decision table takes for granted."""
+    f = ctx.func(f"{C.RABBIT_CONS}.on_new_message")
+    g = ctx.cfg(f)
+
+    def none_test(subject_suffix, is_none):
+        def pred(node):
+            if isinstance(node, ast.Compare) and len(node.ops) == 1 and C.utext(f, node.left).endswith(subject_suffix) and C.is_const(node.comparators[0], None):
+                if isinstance(node.ops[0], ast.Is):
+                    return is_none
+                if isinstance(node.ops[0], ast.IsNot):
+                    return not is_none
+            return None
+        return _branch_env(pred)
+
+    # headers are read only when present; topic / queue come from them
+    reads = [n for n in g.nodes if n.kind in ("store", "call") and n.ast is not None and ".headers.get(" in C.utext(f, n.ast if n.kind == "call" else (n.meta.get("value") or ast.Constant(None)))]
+    ctx.require(bool(reads), f"{f.qualname}: reads of the message headers not found")
+    r_present = flow.reach_under(g, none_test(".headers", False), flow.NORMAL_KINDS)
+    r_absent = flow.reach_under(g, none_test(".headers", True), flow.NORMAL_KINDS)
+    ok = all(n.id in r_present and n.id not in r_absent for n in reads)
+    ctx.check(ok, rule, f, "rabbitmq delivery: topic and queue are read from the headers when there are headers", "headers.get(...) iff headers is not None",
+              "rabbitmq on_new_message reads the headers under the wrong condition: with headers present the topic stays None and every delivery is bounced (nothing is ever consumed); without headers it raises",
+              instance="rabbitmq delivery: headers guard")
+    # a missing message id is replaced - a present one is kept (the id the producer chose is the id acknowledged)
+    ids = [n for n in g.nodes if n.kind == "store" and (n.target or "").endswith("message_id") and "uuid4" in unparse(n.meta.get("value") or ast.Constant(None))]
+    if ids:
+        r_none = flow.reach_under(g, none_test(".message_id", True), flow.NORMAL_KINDS)
+        r_some = flow.reach_under(g, none_test(".message_id", False), flow.NORMAL_KINDS)
+        ok = all(n.id in r_none and n.id not in r_some for n in ids)
+        ctx.check(ok, rule, f, "rabbitmq delivery: only a missing message id is generated", "uuid iff message_id is None",
+                  "rabbitmq on_new_message replaces the message id the producer chose by a fresh one: the consumer receives another id than was enqueued (results, logs and idempotency keys no longer match)",
+                  instance="rabbitmq delivery: id kept")
+    # priority default
+    rk = [c for c in ast.walk(f.node) if isinstance(c, ast.Call) and isinstance(c.func, ast.Attribute) and c.func.attr == "ROUTING_KEY_CLASS"]
+    ctx.require(len(rk) == 1, f"{f.qualname}: ROUTING_KEY_CLASS(...) not found")
+    want = {"id_": "msg_id", "topic": "msg_topic", "queue": "msg_queue"}
+    got = {k.arg: C.utext(f, k.value) for k in rk[0].keywords}
+    okk = all(got.get(k) in (v, C.utext(f, ast.parse(v, mode="eval").body)) for k, v in want.items())
+    pr = C.kw(rk[0], "priority")
+    pr = C.stored_value(f, pr.id) if isinstance(pr, ast.Name) and C.stored_value(f, pr.id) is not None else pr
+    t = C.negate_aware_ifexp(C.inline_locals(f, pr, calls="all") or pr) if pr is not None else None
+    okp = t is not None and isinstance(t[0], ast.Compare) and unparse(t[0].left).endswith(".priority") and isinstance(t[0].ops[0], ast.Is) and C.is_const(t[0].comparators[0], None) \
+        and "MEDIUM" in unparse(t[1]) and unparse(t[2]).endswith(".priority")
+    pr0 = C.kw(rk[0], "priority")
+    if not okp and isinstance(pr0, ast.Name):
+        # `p = props.priority` followed by `if p is None: p = MEDIUM`
+        defs = C.local_defs(f, pr0.id)
+        dflt = [n for n in g.nodes if n.kind == "store" and n.target == pr0.id and "MEDIUM" in unparse(n.meta.get("value") or ast.Constant(None))]
+
+        def p_none(v):
+            def pred(node):
+                if isinstance(node, ast.Compare) and len(node.ops) == 1 and isinstance(node.left, ast.Name) and node.left.id == pr0.id and C.is_const(node.comparators[0], None):
+                    return v if isinstance(node.ops[0], ast.Is) else (not v) if isinstance(node.ops[0], ast.IsNot) else None
+                return None
+            return _branch_env(pred)
+
+        okp = len(defs) == 2 and any(unparse(d).endswith(".priority") for d in defs) and len(dflt) == 1 \
+            and dflt[0].id in flow.reach_under(g, p_none(True), flow.NORMAL_KINDS) and dflt[0].id not in flow.reach_under(g, p_none(False), flow.NORMAL_KINDS)
+    got = {k: v.replace("message.header.properties.message_id", "msg_id") if k == "id_" else v for k, v in got.items()}
+    okk = all(got.get(k) in (v, C.utext(f, ast.parse(v, mode="eval").body).replace("message.header.properties.message_id", "msg_id")) for k, v in want.items())
+    ctx.check(okk and okp, rule, f, "rabbitmq delivery: key = (message id, header topic, header queue, AMQP priority or MEDIUM)", "priority if present else MEDIUM",
+              f"rabbitmq on_new_message builds the routing key from {got}: the consumer receives another id / topic / queue / priority than was enqueued (a None priority fails RoutingKey validation: the delivery is never handed out)",
+              node=rk[0], instance="rabbitmq delivery: key fields")
+    # finish(): a drained message whose tag is known is rejected
+    fin = ctx.func(f"{C.RABBIT_CONS}.finish")
+    gf = ctx.cfg(fin)
+    rej = [n for n in gf.calls() if (n.callee or "").endswith("basic_reject")]
+    if not ctx.check(len(rej) == 1, rule, fin, "rabbitmq finish gives buffered deliveries back one by one", "one basic_reject(tag) per drained message",
+                     f"rabbitmq finish() does not reject each buffered delivery by its own tag ({len(rej)} basic_reject call sites): a batched or different give-back also touches deliveries this consumer does not hold "
+                     "(tags are per channel, the channel is shared by all consumers of the broker)", instance="rabbitmq finish: per-message reject"):
+        rej = []
+
+    def tag_known(known):
+        def pred(node):
+            if isinstance(node, ast.Compare) and len(node.ops) == 1 and isinstance(node.left, ast.Name) and C.is_const(node.comparators[0], None) and unparse(rej[0].ast.args[0]) == node.left.id:
+                return (not known) if isinstance(node.ops[0], ast.Is) else known if isinstance(node.ops[0], ast.IsNot) else None
+            return None
+        return _branch_env(pred)
+
+    ok = bool(rej) and rej[0].id in flow.reach_under(gf, tag_known(True), flow.NORMAL_KINDS) and rej[0].id not in flow.reach_under(gf, tag_known(False), flow.NORMAL_KINDS)
+    ctx.check(ok or not rej, rule, fin, "rabbitmq finish rejects every drained message whose delivery tag is known", "basic_reject(tag) iff tag is not None",
+              "rabbitmq finish() rejects under the wrong condition: buffered deliveries with a known tag are not given back (they stay un-acked while the channel lives), and None is rejected instead", instance="rabbitmq finish: reject known tags")
+    # consume(): the fast path takes from a non-empty buffer only; after the wait, unfinished helper tasks are cancelled; a server-side cancel restarts the subscription
+    cf = ctx.func(f"{C.RABBIT_CONS}.consume")
+    gc = ctx.cfg(cf)
+    gn = [n for n in gc.calls() if (n.callee or "") == "self.queue.get_nowait"]
+    if gn:
+        def nonempty(v):
+            def pred(node):
+                if isinstance(node, ast.Call) and dotted(node.func) == "self.queue.empty":
+                    return not v
+                if isinstance(node, ast.Compare) and "qsize" in unparse(node.left):
+                    return None
+                return None
+            return _branch_env(pred)
+        ok = all(n.id in flow.reach_under(gc, nonempty(True), flow.NORMAL_KINDS) and n.id not in flow.reach_under(gc, nonempty(False), flow.NORMAL_KINDS) for n in gn)
+        ctx.check(ok, rule, cf, "rabbitmq consume: fast path only on a non-empty buffer", "get_nowait() iff not queue.empty()",
+                  "rabbitmq consume() calls get_nowait() on an empty buffer (QueueEmpty ends the consume loop: the worker stops consuming this queue) or skips a buffered message", instance="rabbitmq consume: fast path guard")
+    waits = [n for n in gc.nodes if n.kind == "await" and n.ast is not None and any(isinstance(c, ast.Call) and (dotted(c.func) or "") in ("asyncio.wait", "wait") for c in ast.walk(n.ast))]
+    spawn = [n.id for n in gc.calls() if (n.callee or "").endswith("create_task") and "queue.get" in unparse(n.ast)]
+    cancels = [n.id for n in gc.calls() if isinstance(n.ast.func, ast.Attribute) and n.ast.func.attr == "cancel"]
+    # `for p in pending: p.cancel()` cancels whatever is pending: the loop head stands for the cancellation (zero iterations = nothing was pending)
+    for lp in [x for x in ast.walk(cf.node) if isinstance(x, ast.For) and any(isinstance(c, ast.Call) and isinstance(c.func, ast.Attribute) and c.func.attr == "cancel" for b in x.body for c in ast.walk(b))]:
+        cancels += [n.id for n in gc.nodes if n.kind == "iter" and n.ast is lp.iter or (n.kind == "iter" and getattr(n.ast, "lineno", -1) == lp.lineno)]
+    if waits and spawn:
+        nxt = [d for d, k in gc.succ[waits[0].id] if k in flow.NORMAL_KINDS]
+        # going round the loop again without having cancelled what was left pending leaks the getter (it swallows the next delivery)
+        leak = any(s in flow.reach(gc, nxt, flow.NORMAL_KINDS, blocked=frozenset(cancels), include_start=True) for s in spawn)
+        ctx.check(not leak, rule, cf, "rabbitmq consume: pending helper tasks are cancelled before the next round", "cancel on every path from the wait back to the next getter",
+                  "rabbitmq consume() can start a new getter task while the previous one is still pending (after a server-side cancel): the old getter takes the next delivery and nobody reads its result - that message is lost to the consumer",
+                  instance="rabbitmq consume: pending cancelled")
+    restarts = [n for n in gc.calls() if (n.callee or "") == "self.start"]
+    ok = bool(restarts) and all(n.id in await_map(gc) for n in restarts)
+
+    def cancelled_and_consuming(node):
+        d = dotted(node)
+        if isinstance(node, ast.Call) and dotted(node.func) == "self.server_side_cancel_event.is_set":
+            return True
+        if d == "self.__is_consuming":
+            return True
+        if isinstance(node, ast.Call) and (dotted(node.func) or "").endswith((".done",)):
+            return False
+        return None
+
+    ok = ok and any(n.id in flow.reach_under(gc, _branch_env(cancelled_and_consuming), flow.NORMAL_KINDS) for n in restarts)
+    ctx.check(ok, rule, cf, "rabbitmq consume: a server-side cancel of a running consumer re-subscribes", "await self.start() when the event is set and the consumer is consuming",
+              "rabbitmq consume() does not re-subscribe after the server cancelled the consumer: consume() waits for ever, the worker silently stops receiving this queue", instance="rabbitmq consume: restart")
+
+
+def rabbit_enqueue_contract(ctx: Ctx, rule: str) -> None:
+    """RabbitMQ enqueue: a per-message TTL exactly when there is a due time still ahead, the delayed queue exactly when there is a TTL, mandatory publish, an unconfirmed publish
+    is an error; and the broker's channel accessor refuses a missing / closed channel."""
+    f = ctx.func(f"{C.RABBIT_BROKER}.enqueue")
+    g = ctx.cfg(f)
+    pubs = [c for c in ast.walk(f.node) if isinstance(c, ast.Call) and isinstance(c.func, ast.Attribute) and c.func.attr == "basic_publish"]
+    ctx.require(len(pubs) == 1, f"{f.qualname}: basic_publish not found")
+    pub = pubs[0]
+    props = C.kw(pub, "properties")
+    exp = C.kw(props, "expiration") if isinstance(props, ast.Call) else None
+    ctx.require(isinstance(exp, ast.Name), f"{f.qualname}: expiration local not found")
+    sets = [n for n in g.nodes if n.kind == "store" and n.target == exp.id and not C.is_const(n.meta.get("value"), None)]
+    ctx.require(bool(sets), f"{f.qualname}: store of the TTL not found")
+    fn_of = [f]
+    g_ttl = g
+    if len(sets) == 1 and isinstance(sets[0].meta.get("value"), ast.Call):
+        # `exp = self.__expiration(params)`: the decision lives in a helper - its non-None returns are the TTL
+        hs = [h for h in ctx.res.callees(f, sets[0].meta["value"], record=False) if h.cls is f.cls]
+        if len(hs) == 1:
+            g_ttl = ctx.cfg(hs[0])
+            fn_of[0] = hs[0]
+            sets = [n for n in g_ttl.nodes if n.kind == "return" and isinstance(n.ast, ast.Return) and n.ast.value is not None and not C.is_const(n.ast.value, None)]
+            ctx.require(bool(sets), f"{hs[0].qualname}: no TTL returned")
+
+    def env(has_due, ahead):
+        def pred(node):
+            if isinstance(node, ast.Compare) and len(node.ops) == 1 and C.is_const(node.comparators[0], None) and "wait_until" in C.utext(fn_of[0], node.left, calls="all"):
+                return (not has_due) if isinstance(node.ops[0], ast.Is) else has_due if isinstance(node.ops[0], ast.IsNot) else None
+            if isinstance(node, ast.Compare) and len(node.ops) == 1 and isinstance(node.left, ast.Name) and C.is_const(node.comparators[0], 0):
+                op = node.ops[0]
+                return ahead if isinstance(op, ast.Gt) else (not ahead) if isinstance(op, ast.LtE) else None
+            return None
+        return _branch_env(pred)
+
+    want = {(True, True): True, (True, False): False, (False, True): False}
+    for (has_due, ahead), expect in want.items():
+        r = flow.reach_under(g_ttl, env(has_due, ahead), flow.NORMAL_KINDS)
+        got = any(s_.id in r for s_ in sets)
+        ctx.check(got == expect, rule, f, f"rabbitmq enqueue: TTL set [due time given={has_due}, still ahead={ahead}] = {expect}", "a TTL exactly for a due time that lies ahead",
+                  f"rabbitmq enqueue with due time given={has_due}, still ahead={ahead}: TTL {'set' if got else 'not set'} - " +
+                  ("a message that must wait is published straight to the work queue (delivered before its time)" if expect else "a message without a pending due time is parked in the delayed queue (with a zero / negative TTL RabbitMQ refuses or expires it at once)"),
+                  instance=f"rabbitmq enqueue: ttl[{has_due},{ahead}]")
+    rk = C.kw(pub, "routing_key")
+    ok = isinstance(rk, ast.Call) and (dotted(rk.func) or "").endswith("qnc") and unparse(C.arg(rk, 0, "queue_name")) == "key.queue" and unparse(C.kw(rk, "delayed") or ast.Constant(None)) in (f"{exp.id} is not None", f"not {exp.id} is None")
+    ctx.check(ok, rule, f, "rabbitmq enqueue: delayed queue iff a TTL was set", "qnc(key.queue, delayed=exp is not None)", f"rabbitmq enqueue publishes to {unparse(rk)[:80] if rk is not None else '?'}: a message with a TTL in the "
+              "work queue expires INTO the dead-letter queue (lost for the consumer), a message without TTL in the delayed queue never leaves it", node=pub, instance="rabbitmq enqueue: routing")
+    ctx.check(C.is_const(C.kw(pub, "mandatory"), True), rule, f, "rabbitmq enqueue: mandatory publish", "mandatory=True", "rabbitmq enqueue publishes without mandatory=True: a message for a queue that does not exist is "
+              "dropped by the server and the publish still counts as successful", node=pub, instance="rabbitmq enqueue: mandatory")
+    tests = [t for t in g.nodes if t.kind == "test" and t.ast is not None and "Basic.Ack" in unparse(t.ast)]
+    raises = [n for n in g.nodes if n.kind == "raise"]
+
+    def acked(v):
+        def pred(node):
+            if isinstance(node, ast.Call) and dotted(node.func) == "isinstance" and "Ack" in unparse(node):
+                return v
+            return None
+        return _branch_env(pred)
+
+    ok = bool(tests) and bool(raises) and any(r_.id in flow.reach_under(g, acked(False), flow.NORMAL_KINDS + ("raise",)) for r_ in raises) \
+        and not any(r_.id in flow.reach_under(g, acked(True), flow.NORMAL_KINDS + ("raise",)) for r_ in raises)
+    ctx.check(ok, rule, f, "rabbitmq enqueue: an unconfirmed publish raises", "not Basic.Ack -> ConnectionError", "rabbitmq enqueue returns normally although the server did not confirm the publish (or raises on a "
+              "confirmed one): the producer believes a message is enqueued that the server never took", instance="rabbitmq enqueue: confirmation")
+    ch = ctx.func(f"{C.RABBIT_BROKER}._channel")
+    gch = ctx.cfg(ch)
+
+    def closed(v):
+        def pred(node):
+            d = dotted(node)
+            if d is not None and d.endswith(".is_closed"):
+                return v
+            if isinstance(node, ast.Compare) and C.is_const(node.comparators[0], None) and "channel" in unparse(node.left):
+                return False if isinstance(node.ops[0], ast.Is) else True
+            return None
+        return _branch_env(pred)
+
+    r_closed = flow.reach_under(gch, closed(True), flow.NORMAL_KINDS + ("raise",))
+    r_open = flow.reach_under(gch, closed(False), flow.NORMAL_KINDS + ("raise",))
+    ok = gch.exit.id not in r_closed and gch.exit.id in r_open
+    ctx.check(ok, rule, ch, "rabbitmq: a closed channel is an error, an open one is handed out", "raise iff channel is None or closed", "RabbitMessageBroker._channel hands out a closed channel (or refuses an open one): "
+              "operations on a dead channel fail in aiormq in ways the worker does not turn into UNHEALTHY", instance="rabbitmq channel accessor")
+    # the dead-letter topology: delayed -> work queue -> dead
+    qd = ctx.func(f"{C.RABBIT_BROKER}.queue_declare")
+    decls = [c for c in ast.walk(qd.node) if isinstance(c, ast.Call) and isinstance(c.func, ast.Attribute) and c.func.attr == "queue_declare"]
+    topo = {}
+    for d in decls:
+        name = C.utext(qd, C.arg(d, 0, "queue"))
+        args = C.kw(d, "arguments")
+        dl = None
+        pri = None
+        if isinstance(args, ast.Dict):
+            for k, v in zip(args.keys, args.values):
+                if C.is_const(k, "x-dead-letter-routing-key"):
+                    dl = C.utext(qd, v)
+                if C.is_const(k, "x-max-priority"):
+                    pri = unparse(v)
+        topo[name] = (dl, pri, unparse(C.kw(d, "durable") or ast.Constant(None)))
+    want_t = {"queue_name": ("f'{queue_name}:dead'", "9", "True"), "f'{queue_name}:delayed'": ("queue_name", "9", "True"), "f'{queue_name}:dead'": (None, "9", "True")}
+    ctx.check(topo == want_t, rule, qd, "rabbitmq topology: delayed -> work -> dead, ten priorities, durable", "three declarations with these dead-letter routes", f"rabbitmq queue_declare declares {topo}: expected {want_t} - "
+              "an expired delayed message must fall into the work queue and a nacked one into the dead queue; fewer priorities than the library's range reorder messages", instance="rabbitmq topology")
+
+
+def _none_env(f, subject: str, is_none: bool):
+    def pred(node):
+        if isinstance(node, ast.Compare) and len(node.ops) == 1 and C.is_const(node.comparators[0], None) and C.utext(f, node.left) == subject:
+            if isinstance(node.ops[0], ast.Is):
+                return is_none
+            if isinstance(node.ops[0], ast.IsNot):
+                return not is_none
+        return None
+    return _branch_env(pred)
+
+
+def redis_defaults_only_when_missing(ctx: Ctx, rule: str) -> None:
+    """The Redis broker substitutes defaults only for what is missing: given parameters are stored as given, stored parameters and the stored reject target are used when present."""
+    n = 0
+    for op in ("enqueue", "requeue"):
+        f = ctx.func(f"{C.REDIS_BROKER}.{op}")
+        g = ctx.cfg(f)
+        dflt = [s_ for s_ in g.nodes if s_.kind == "store" and s_.target == "params" and isinstance(s_.meta.get("value"), ast.Call) and unparse(s_.meta["value"]).endswith("PARAMETERS_CLASS()")]
+        for s_ in dflt:
+            n += 1
+            ok = s_.id in flow.reach_under(g, _none_env(f, "params", True), flow.NORMAL_KINDS) and s_.id not in flow.reach_under(g, _none_env(f, "params", False), flow.NORMAL_KINDS)
+            ctx.check(ok, rule, f, f"redis {op}: default parameters only when none were given", "params = PARAMETERS_CLASS() iff params is None",
+                      f"redis {op} replaces the parameters it was given by default ones: the message loses its timeout, retries, delay, ttl and result settings (what the consumer receives is not what was enqueued)",
+                      node=s_, instance=f"redis {op}: default params")
+    f = ctx.func(f"{C.REDIS_BROKER}.reject")
+    g = ctx.cfg(f)
+    stores = [s_ for s_ in g.nodes if s_.kind == "store" and s_.target in ("params", "reject_to")]
+    subject_of: dict[str, str] = {}
+    for s_ in stores:  # what is decoded names the subject of the presence test (`raw_params[0]`, whatever the local is called)
+        v = s_.meta.get("value")
+        for c in ast.walk(v) if v is not None else []:
+            if isinstance(c, ast.Call) and isinstance(c.func, ast.Attribute) and c.func.attr == "decode" and not c.args and isinstance(c.func.value, ast.Subscript):
+                subject_of[s_.target] = unparse(c.func.value)
+    for s_ in stores:
+        v = s_.meta.get("value")
+        txt = unparse(v) if v is not None else ""
+        subj = subject_of.get(s_.target, "raw_params[0]" if s_.target == "params" else "raw_params[1]")
+        if ".decode(" in txt or txt.endswith(".decode()"):
+            want_none = False  # the stored value is used when there is one
+        elif s_.target == "params":
+            want_none = True
+        else:
+            continue  # `reject_to = 'n'` default-then-override: the override is what is checked
+        n += 1
+        ok = s_.id in flow.reach_under(g, _none_env(f, subj, want_none), flow.NORMAL_KINDS) and s_.id not in flow.reach_under(g, _none_env(f, subj, not want_none), flow.NORMAL_KINDS)
+        ctx.check(ok, rule, f, f"redis reject: {s_.target} from the stored value when present", f"{txt[:40]} iff {subj} is {'None' if want_none else 'not None'}",
+                  f"redis reject sets {s_.target} = {txt[:50]} under the wrong condition: the stored parameters / reject target of the message are ignored (a rejected delayed or dead message goes to the normal queue) or None is decoded "
+                  "(reject fails, the message stays in `processing`)", node=s_, instance=f"redis reject: {s_.target} <- {txt[:30]}")
+    ctx.floor(rule, n, 4, "default / stored-value selections in the Redis broker")
+    m = ctx.func(f"{C.REDIS_BROKER}.maintenance")
+    gm = ctx.cfg(m)
+    dec = [x for x in gm.calls() if (x.callee or "").endswith("PARAMETERS_CLASS.decode")]
+    zr = [x for x in gm.calls() if (x.callee or "").endswith(".zrem")]
+    if dec and zr:
+        ok = all(x.id in flow.reach_under(gm, _none_env(m, "raw_params", False), flow.NORMAL_KINDS) and x.id not in flow.reach_under(gm, _none_env(m, "raw_params", True), flow.NORMAL_KINDS) for x in dec) \
+            and all(x.id in flow.reach_under(gm, _none_env(m, "raw_params", True), flow.NORMAL_KINDS) and x.id not in flow.reach_under(gm, _none_env(m, "raw_params", False), flow.NORMAL_KINDS) for x in zr)
+        ctx.check(ok, rule, m, "redis maintenance: entries without data are dropped, entries with data are examined", "zrem iff no parameters; decode iff parameters",
+                  "redis maintenance treats present data as missing (held messages of dead workers are removed from `processing` instead of being returned) or decodes None (maintenance dies on the first orphan, "
+                  "nothing is ever returned)", instance="redis maintenance: data guard")
